@@ -104,6 +104,15 @@ func corpusLateAdd(t *testing.T, w *emit.Writer) {
 	}
 	var acts []string
 	obs := func(act string, ret int) {
+		for try := 0; try < 50; try++ { // let the store's own flush loop catch up (real time); a genuine gap stays
+			c2, cancel2 := context.WithTimeout(context.Background(), 5*time.Millisecond)
+			a, err2 := st.GetByHeight(c2, storeHead()+1)
+			cancel2()
+			if err2 != nil || a == nil {
+				break
+			}
+			time.Sleep(20 * time.Millisecond)
+		}
 		o := fmt.Sprintf("(Obs %d %d ", ret, storeHead())
 		lh, err := sy.Head(ctx) // the getter's Head fails: returns the subjective head
 		if err != nil || lh == nil {
